@@ -90,7 +90,19 @@ def summarise_recorder(recorder) -> dict:
             "transition": None if t is None else {"id": t.id, "parent_id": t.parent_id, "is_inferred": getattr(t, "is_inferred", None)},
             "transition_obj": t,
         }
-    checks = {cid: [{"name": c.name, "status": c.status.name} for c in nodes] for cid, nodes in recorder.checks.items()}
+    checks = {
+        cid: [
+            {
+                "name": c.name,
+                "status": c.status.name,
+                "code_sample": c.failure_info.code_sample if c.failure_info is not None else None,
+                "failure_case_id": getattr(c.failure_info.failure, "case_id", None) if c.failure_info is not None else None,
+                "failure_title": getattr(c.failure_info.failure, "title", None) if c.failure_info is not None else None,
+            }
+            for c in nodes
+        ]
+        for cid, nodes in recorder.checks.items()
+    }
     interactions = {}
     for cid, inter in recorder.interactions.items():
         interactions[cid] = {
@@ -103,6 +115,7 @@ def summarise_recorder(recorder) -> dict:
 
 def build_config(cfg: dict):
     import hypothesis
+    import schemathesis.specs.openapi.checks  # noqa: F401 - registers the OpenAPI checks
     from schemathesis.checks import CHECKS
     from schemathesis.engine.config import EngineConfig, ExecutionConfig, NetworkConfig
     from schemathesis.engine.phases import PhaseName
